@@ -126,7 +126,10 @@ func (p *rp) sum() int64 {
 // position that admits an expression.
 func VC06() {
 	shape := vrt.ChooseStr("shape", c06Shapes)
-	where := vrt.ChooseStr("where", []string{"dd", "imm", "equ", "disp", "dw", "dispr"})
+	where := vrt.ChooseStr("where", []string{"dd", "imm", "equ", "disp", "dw", "dispr", "dispbi", "equ2"})
+	if where == "equ2" && len(shape) > 4 {
+		vrt.Assume(false) // the reuse check does not depend on the body: short bodies only
+	}
 	spacing := 0
 	if where == "dd" || vrt.Param("allconst") != 0 {
 		spacing = vrt.Choose("spacing", 3)
@@ -202,6 +205,13 @@ func VC06() {
 		src = "ORG 0x100\nXX EQU " + text + "\nDD XX\n"
 	case "disp":
 		src = "[BITS 32]\nORG 0x100\nMOV ECX,[EBX+" + text + "]\n"
+	case "dispbi":
+		// base + unscaled index + expression
+		src = "[BITS 32]\nORG 0x100\nMOV ECX,[EBX+ESI+" + text + "]\n"
+	case "equ2":
+		// the name is used in a product first and then again on its own: the
+		// first use must not change what the name stands for
+		src = "ORG 0x100\nXX EQU " + text + "\nDD XX*3\nDD XX\nDD XX+1\n"
 	case "dispr":
 		// the constant terms first, the register last
 		src = "[BITS 32]\nORG 0x100\nMOV ECX,[" + text + "+EBX]\n"
@@ -210,7 +220,7 @@ func VC06() {
 	out, oc := AssembleT(src, sb.list, "s")
 	vrt.Note("outcome", oc)
 	vrt.NoteBytes("bytes", out)
-	if oc == "ok" && !diagnosed() && len(out) == 0 && (where == "disp" || where == "dispr" || where == "imm") {
+	if oc == "ok" && !diagnosed() && len(out) == 0 && (where == "disp" || where == "dispr" || where == "dispbi" || where == "imm") {
 		// accepted without a word, nothing emitted: the expression made the
 		// instruction disappear
 		vrt.Assert(false, "c06.dropped")
@@ -241,6 +251,29 @@ func VC06() {
 		acc.flag(len(out) != 5 || out[0] != 0xb9)
 		if len(out) == 5 {
 			acc.eqLE(out[1:], want)
+		}
+	case "equ2":
+		acc.flag(len(out) != 12)
+		if len(out) == 12 {
+			acc.eqLE(out[0:4], want*3)
+			acc.eqLE(out[4:8], want)
+			acc.eqLE(out[8:12], want+1)
+		}
+	case "dispbi":
+		// 8B 0C 33 | 8B 4C 33 d8 | 8B 8C 33 d32
+		acc.flag(len(out) < 3 || out[0] != 0x8b || out[2] != 0x33)
+		switch len(out) {
+		case 3:
+			acc.flag(out[1] != 0x0c)
+			acc.eq(uint64(uint32(want)), 0)
+		case 4:
+			acc.flag(out[1] != 0x4c)
+			acc.eq(uint64(uint32(int32(int8(out[3])))), uint64(uint32(want)))
+		case 7:
+			acc.flag(out[1] != 0x8c)
+			acc.eqLE(out[3:], want)
+		default:
+			acc.flag(true)
 		}
 	case "disp", "dispr":
 		// 8B 0B | 8B 4B d8 | 8B 8B d32
